@@ -51,6 +51,7 @@ pub struct Minifier
 	flags: u64,
 	pass: usize,
 	ends_with_str: bool,
+	is_last_line: bool,
 	forbids_combining_next: HashSet<usize>,
 	linenum_refs: HashSet<usize>,
 	forbids_combining_any: bool
@@ -88,6 +89,7 @@ impl Minifier
 			flags: FLAG_SAFE,
 			pass: 1,
 			ends_with_str: false,
+			is_last_line: false,
 			forbids_combining_any: false,
 			forbids_combining_next: HashSet::new(),
 			linenum_refs: HashSet::new()
@@ -97,17 +99,21 @@ impl Minifier
 	fn needs_guard(&self,clean_str: &str,curs: &tree_sitter::TreeCursor) -> bool {
 		let short_str = clean_str[0..2].to_lowercase();
 		let cannot_follow = &self.var_guards[short_str];
-		if let Some(mut parent) = curs.node().parent() {
-			while parent.next_named_sibling()==None {
-				if parent.parent()==None {
-					return false;
-				}
-				parent = parent.parent().unwrap();
+		// start with the name itself: if a subscript follows, the name needs no guard
+		let mut parent = curs.node();
+		while parent.next_named_sibling()==None {
+			if parent.parent()==None {
+				return false;
 			}
-			let next = parent.next_named_sibling().unwrap();
-			return cannot_follow.contains(next.kind());
+			parent = parent.parent().unwrap();
 		}
-		return false;
+		let next = parent.next_named_sibling().unwrap();
+		// if nothing at all separates the two (PRINT items run together), the guard table cannot know
+		// what the next node starts with, so always guard
+		if parent.next_sibling()==Some(next) && !next.kind().starts_with("tok_") && next.kind()!="subscript" {
+			return true;
+		}
+		return cannot_follow.contains(next.kind());
 	}
 	/// Generate map from deleted or absorbed line numbers to replacement line numbers.
 	/// Assumes `deleted_lines` and `all_lines` are already built. 
@@ -218,7 +224,10 @@ impl Minifier
 						}
 					}
 					// if no previous statement we keep token, or delete line
-					if self.flags & FLAG_DEL_LINES > 0 && self.curr_linenum.is_some() {
+					// only a REM that starts the line can delete it (not `IF X THEN REM`), and the last
+					// line is kept, it is the replacement target of any deleted line before it
+					let starts_line = curs.node().parent().map_or(false,|p| p.kind()=="line");
+					if self.flags & FLAG_DEL_LINES > 0 && self.curr_linenum.is_some() && starts_line && !self.is_last_line {
 						self.minified_line = String::new();
 						self.deleted_lines.push(self.curr_linenum.unwrap());
 						return Ok(Navigation::Exit);
@@ -229,6 +238,10 @@ impl Minifier
 				}
 				// for DATA always keep everything
 				if tok.kind()=="tok_data" {
+					// the token itself is never visited, so register it here
+					if let Some(linenum) = self.curr_linenum {
+						self.forbids_combining_next.insert(linenum);
+					}
 					self.minified_line += &node_str;
 					return Ok(Navigation::GotoSibling);
 				}
@@ -254,10 +267,11 @@ impl Minifier
 				};
 				curr = curr.parent().unwrap();
 			}
-			if node_str.ends_with("\"") && node_str.len()>1 {
-				self.minified_line += &node_str[0..node_str.len()-1].trim_start();
+			let trimmed = node_str.trim_start();
+			if trimmed.ends_with("\"") && trimmed.len()>1 {
+				self.minified_line += &trimmed[0..trimmed.len()-1];
 			} else {
-				self.minified_line += node_str.trim_start();
+				self.minified_line += trimmed;
 			}
 			return Ok(Navigation::GotoSibling);
 		}
@@ -368,10 +382,14 @@ impl Minifier
 		self.pass = 1;
 		let mut parser = tree_sitter::Parser::new();
 		parser.set_language(&tree_sitter_applesoft::language()).expect("error loading applesoft grammar");
+		let line_count = program.lines().filter(|l| l.trim().len()>0).count();
+		let mut line_idx = 0;
 		for line in program.lines() {
 			if line.trim().len()==0 {
 				continue;
 			}
+			line_idx += 1;
+			self.is_last_line = line_idx==line_count;
 			self.curr_linenum = None;
 			self.minified_line = String::from(line) + "\n";
 			for _rep in 0..10 {
@@ -398,6 +416,8 @@ impl Minifier
 		self.minified_program = String::new();
 		self.pass = 2;
 		self.set_line_ref_map()?;
+		// stage 3 must see the references as they are after this pass
+		self.linenum_refs = self.linenum_refs.iter().map(|num| *self.line_map.get(num).unwrap_or(num)).collect();
 		let mut parser = tree_sitter::Parser::new();
 		parser.set_language(&tree_sitter_applesoft::language()).expect("error loading applesoft grammar");
 		for line in program.lines() {
